@@ -395,11 +395,11 @@ def rnd_stop(rng, vocab):
     return txt[i:j]
 
 
-def render_cfg(cfg, numctx):
+def render_cfg(cfg, numctx, ncells=-1):
     w = cfg.get("window", 0)
-    return "(mkCfg %d %d %s %s %s %s (%d) %s)" % (numctx, cfg["batch"], cq_bool(cfg["multi"]), cq_bool(cfg.get("shift", True)),
-                                                  cq_bool(cfg.get("partial", True)), cq_bool(cfg.get("resume", True)), cfg.get("eos", -1),
-                                                  "(Some %d)" % w if w > 0 else "None")
+    return "(mkCfg %d %d %s %s %s %s (%d) %s (%d))" % (numctx, cfg["batch"], cq_bool(cfg["multi"]), cq_bool(cfg.get("shift", True)),
+                                                       cq_bool(cfg.get("partial", True)), cq_bool(cfg.get("resume", True)), cfg.get("eos", -1),
+                                                       "(Some %d)" % w if w > 0 else "None", ncells)
 
 
 def render_op(c, e):
@@ -416,7 +416,7 @@ def render_obs(e):
     elif res.get("idle"):
         r = "OIdle"
     elif res.get("err"):
-        r = "OStepErr"
+        r = "OCacheFull" if "could not find a kv cache slot" in res["err"] else "OStepErr"
     else:
         if e["fwd"]:
             f = e["fwd"][0]
@@ -445,23 +445,17 @@ def attach_ops(c, o):
 
 def render(c, o):
     attach_ops(c, o)
-    # the model has no notion of cache capacity: a step on which StartForward found no room ends the comparison (the
-    # monitor reports the error itself)
-    trace = []
-    for e in o["trace"]:
-        if e["t"] == "step" and "could not find a kv cache slot" in (e["res"].get("err") or ""):
-            break
-        trace.append(e)
+    trace = o["trace"]       # a step on which StartForward found no room is predicted by the model too (RCacheFull)
     tr = cq_list(["(%s, %s)" % (render_op(c, e), render_obs(e)) for e in trace], "(op * obs)")
     fn = "chk_trace_mm" if c.get("klass") == "multimodal" or any(t >= 1000 for e in trace if e["t"] == "submit" for t in (e["prompt"] or [])) else "chk_trace"
-    return "%s %d %s %d%%nat %s" % (fn, c["cfg"]["vocab"], render_cfg(c["cfg"], o["numctx"]), c["cfg"]["parallel"], tr)
+    return "%s %d %s %d%%nat %s" % (fn, c["cfg"]["vocab"], render_cfg(c["cfg"], o["numctx"], o.get("ncells", -1)), c["cfg"]["parallel"], tr)
 
 
 def model_term(c, o):
     attach_ops(c, o)
     ops = cq_list([render_op(c, e) for e in o["trace"]], "op")
     fn = "model_trace_mm" if c.get("klass") == "multimodal" else "model_trace"
-    return "%s %d %s %d%%nat %s" % (fn, c["cfg"]["vocab"], render_cfg(c["cfg"], o["numctx"]), c["cfg"]["parallel"], ops)
+    return "%s %d %s %d%%nat %s" % (fn, c["cfg"]["vocab"], render_cfg(c["cfg"], o["numctx"], o.get("ncells", -1)), c["cfg"]["parallel"], ops)
 
 
 # ------------------------------------------------------------------ pure parts (both runners' copies)
@@ -604,37 +598,80 @@ def conc_monitor(c, o):
     return out
 
 
+def run_bursts(binp, cases, tmp, group=4):
+    """run the bursts in small groups, each group in its own child process (an unlocked cache typically kills the
+    process with 'fatal error: concurrent map writes', which truncates stdout).  Returns one record per burst:
+    {"obs": parsed observation or None, "died": reason or None, "stderr": tail}"""
+    recs = []
+    for g in range(0, len(cases), group):
+        chunk = cases[g:g + group]
+        inp = "".join(json.dumps(strip(c)) + "\n" for c in chunk)
+        died, stderr, stdout = None, "", ""
+        try:
+            p = subprocess.run([binp], input=inp, capture_output=True, text=True, timeout=120, env=vlib.goenv(), cwd=tmp)
+            stdout, stderr = p.stdout, p.stderr
+            if p.returncode != 0:
+                died = "exit status %d" % p.returncode
+        except subprocess.TimeoutExpired as ex:
+            died = "no answer within 120 s"
+            stdout = ex.stdout.decode(errors="replace") if isinstance(ex.stdout, bytes) else (ex.stdout or "")
+            stderr = ex.stderr.decode(errors="replace") if isinstance(ex.stderr, bytes) else (ex.stderr or "")
+        outs = []
+        for l in stdout.split("\n"):
+            if not l.startswith("{"):
+                continue
+            try:
+                outs.append(json.loads(l))
+            except ValueError:
+                break                                   # a line cut short by the death of the process
+        fatal = next((x for x in stderr.split("\n") if x.startswith("fatal error:") or x.startswith("panic:") or "DATA RACE" in x), None)
+        if fatal and not died:
+            died = fatal
+        for k, c in enumerate(chunk):
+            if k < len(outs):
+                recs.append({"obs": outs[k], "died": None, "stderr": ""})
+            else:
+                # the burst during which the process died (k == len(outs)) and those never started after it
+                recs.append({"obs": None, "died": (fatal or died or "no observation") if k == len(outs) else None,
+                             "skipped": k > len(outs), "stderr": stderr[-2500:] if k == len(outs) else ""})
+        if "DATA RACE" in stderr and len(outs) == len(chunk):
+            recs[-1]["race"] = stderr[-2500:]
+    return recs
+
+
 def conc_stage(ctx, binp, race_bin=None):
     """the real completion handler from several goroutines at once + the real run loop"""
     cases = gen_conc(ctx)
     for tag, b in (("", binp), ("race", race_bin)):
         if not b:
             continue
-        inp = "".join(json.dumps(strip(c)) + "\n" for c in cases)
-        try:
-            p = subprocess.run([b], input=inp, capture_output=True, text=True, timeout=600, env=vlib.goenv(), cwd=ctx.tmp)
-        except subprocess.TimeoutExpired:
-            ctx.violation({"class": "concurrent-hang", "concurrent": True}, "the concurrent stage did not finish", {"cases": len(cases)})
-            continue
-        outs = [json.loads(l) for l in p.stdout.split("\n") if l.startswith("{")]
+        recs = run_bursts(b, cases, ctx.tmp)
         seen = set()
-        for c, o in zip(cases, outs):
-            if not tag:
+        nobs = 0
+        for c, r in zip(cases, recs):
+            o = r["obs"]
+            burst_sig = {"concurrent": True, "multi": c["cfg"]["multi"], "slots": c["cfg"]["parallel"]}
+            if not tag and not r.get("skipped"):
                 ctx.note_case(strip(c), True, c["klass"])
                 ctx.count("concurrent-requests", len(c["burst"]))
-                if o.get("parked"):
+            viol = []
+            if o is not None:
+                nobs += 1
+                if not tag and o.get("parked"):
                     ctx.count("concurrent-bursts-parked-in-slot-selection")
-            for sig, what in conc_monitor(c, o):
+                viol = conc_monitor(c, o)
+            elif r.get("died"):
+                klass = "race" if "DATA RACE" in r["died"] else "runner-process-died"
+                viol = [(dict(burst_sig, **{"class": klass}),
+                         "the runner process died during a burst of %d concurrent requests on %d slots (%s policy): %s"
+                         % (len(c["burst"]), c["cfg"]["parallel"], "multi-user" if c["cfg"]["multi"] else "single-user", r["died"]))]
+            if r.get("race"):
+                viol.append((dict(burst_sig, **{"class": "race"}), "the race detector reported a data race during the concurrent stage"))
+            for sig, what in viol:
                 if sig["class"] not in seen:
                     seen.add(sig["class"])
-                    ctx.violation(sig, what, {"case": strip(c), "impl": o})
-        if "DATA RACE" in p.stderr:
-            ctx.violation({"class": "data-race", "concurrent": True}, "the race detector reported a data race in the concurrent stage", {"stderr": p.stderr[-3000:]})
-        elif len(outs) != len(cases) or p.returncode != 0:
-            ctx.violation({"class": "concurrent-crash", "concurrent": True},
-                          "the runner process died in the concurrent stage after %d of %d bursts: %s" % (len(outs), len(cases), (p.stderr.strip().split("\n") or [""])[0][:200]),
-                          {"case": strip(cases[len(outs)]) if len(outs) < len(cases) else None, "stderr": p.stderr[:3000]})
-        ctx.obligation("concurrent stage%s: %d bursts through the real completion handler" % (" (-race)" if tag else "", len(cases)), True)
+                    ctx.violation(sig, what, {"case": strip(c), "impl": o, "stderr": r.get("stderr") or r.get("race") or "", "seed": ctx.seed})
+        ctx.obligation("concurrent stage%s: %d of %d bursts through the real completion handler observed" % (" (-race)" if tag else "", nobs, len(cases)), True)
 
 
 # ------------------------------------------------------------------ the check
@@ -647,7 +684,10 @@ def run_one(binp, c):
     p = subprocess.run([binp], input=json.dumps(strip(c)) + "\n", capture_output=True, text=True, timeout=120, env=vlib.goenv())
     for line in p.stdout.split("\n"):
         if line.startswith("{"):
-            return json.loads(line)
+            try:
+                return json.loads(line)
+            except ValueError:
+                return None
     return None
 
 
@@ -707,7 +747,7 @@ def run(ctx):
     ctx.assumptions = ["theorems: context size per slot >= 1 (NewInputCache refuses less); every other parameter, the network F and the history are universally quantified",
                        "text-only inputs (no multimodal SameBatch groups)", "theorems over histories: no sliding window (window cfg = None); sliding-window caches are modelled, compared and monitored but not proved",
                        "requests are not cancelled mid-generation", "the network is any function of the history the cache exposes (harness: a hash; theorems: a Section variable)"]
-    ctx.proof_stage(["Slots"], "Slots/Properties_C07.v", extra_targets=["Slots/Corr.v"])
+    ctx.proof_stage(["Slots"], "Slots/Properties_C07.v", extra_targets=["Slots/Corr.v", "Slots/CorrMM.v"])
     if not ctx.quick():
         ctx.coqchk(["V.Slots.Properties_C07"])
     binp = ctx.go_build("c07")
@@ -795,12 +835,15 @@ def replay(ctx, path):
     rp = r.get("replay", {})
     c = rp.get("case") if isinstance(rp, dict) else None
     if c and binp and c.get("op") == "conc":
-        o = run_one(binp, c)
-        if o is None:
-            ctx.violation({"class": "concurrent-crash", "concurrent": True}, "the runner process died", {"case": c})
-        else:
-            for sig, what in conc_monitor(c, o):
-                ctx.violation(sig, what, {"case": c, "impl": o})
+        for _ in range(5):                                # the interleaving is forced but not fully deterministic
+            r = run_bursts(binp, [c], ctx.tmp)[0]
+            if r["obs"] is None:
+                ctx.violation({"class": "runner-process-died", "concurrent": True}, "the runner process died: %s" % r.get("died"), {"case": c, "stderr": r.get("stderr")})
+            else:
+                for sig, what in conc_monitor(c, r["obs"]):
+                    ctx.violation(sig, what, {"case": c, "impl": r["obs"]})
+            if ctx.violations:
+                break
         return
     if c and binp:
         o = run_one(binp, c)
